@@ -10,7 +10,7 @@ import (
 // RaceBuild reports whether the binary was built with -race.
 const RaceBuild = true
 
-func raceDisable()                        { runtime.RaceDisable() }
-func raceEnable()                         { runtime.RaceEnable() }
-func raceAcquire(p unsafe.Pointer)        { runtime.RaceAcquire(p) }
-func raceReleaseMerge(p unsafe.Pointer)   { runtime.RaceReleaseMerge(p) }
+func raceDisable()                      { runtime.RaceDisable() }
+func raceEnable()                       { runtime.RaceEnable() }
+func raceAcquire(p unsafe.Pointer)      { runtime.RaceAcquire(p) }
+func raceReleaseMerge(p unsafe.Pointer) { runtime.RaceReleaseMerge(p) }
